@@ -18,7 +18,7 @@ raw garbage, truncated tail) x random schedule (chunks of 1..11 bytes mostly, No
 after each event) x random small source (payload sets of all types, 0..3 earlier serials, diff window, ready or not). Oracle: \
 (1) output minus Serial Notify PDUs == output of the reference schedule (one chunk, no notify) on a fresh server; (2) output \
 parses into whole PDUs with an independent parser, no Serial Notify between Cache Response and End of Data, #Serial Notify <= \
-#Notify events; (3) on the reference output, for the stream prefix up to the first malformed PDU (a reset query refused for its version \
+#Notify events, and a settle point that starts with >=1 notification outstanding while the connection is alive, in sync and waiting for a query header emits >=1 Serial Notify before it ends (bursts may coalesce, they may not vanish); (3) on the reference output, for the stream prefix up to the first malformed PDU (a reset query refused for its version \
 is header-only and does not end the prefix) every complete well-formed \
 query has exactly the expected response (Cache Response, payload multiset per version, End of Data with state and timing / \
 Cache Reset / Error 2 when not ready) and the first malformed one an Error PDU. Non-trivial = schedule with >=1 chunk boundary \
@@ -134,6 +134,10 @@ struct Exec {
     notify_events: u32,
     reads: Vec<(u64, u32, u32)>,
     consumed_at_notify: Vec<u64>,
+    /// For every settle point that started with notifications outstanding:
+    /// (output length when the first of them was fired, output length after
+    /// the settle, number of stream bytes handed to the server by then).
+    notify_windows: Vec<(usize, usize, usize)>,
 }
 
 fn exec(spec: &SrcSpec, bytes: &[u8], sched: &[Ev], out_cap: u16) -> Result<Exec, Fail> {
@@ -171,6 +175,8 @@ fn exec(spec: &SrcSpec, bytes: &[u8], sched: &[Ev], out_cap: u16) -> Result<Exec
         let mut pos = 0usize;
         let mut notify_events = 0;
         let mut consumed_at_notify = Vec::new();
+        let mut pending_notify: Option<usize> = None;
+        let mut notify_windows = Vec::new();
         for ev in sched {
             match ev {
                 Ev::Chunk(n) => {
@@ -181,15 +187,22 @@ fn exec(spec: &SrcSpec, bytes: &[u8], sched: &[Ev], out_cap: u16) -> Result<Exec
                 Ev::Notify => {
                     consumed_at_notify.push(ctl.consumed_by_server());
                     notify_events += 1;
+                    pending_notify.get_or_insert(out.len());
                     notify.notify();
                 }
                 Ev::Settle => {
                     settle_drain!();
+                    if let Some(before) = pending_notify.take() {
+                        notify_windows.push((before, out.len(), pos));
+                    }
                 }
             }
         }
         ctl.feed(&bytes[pos..]);
         settle_drain!();
+        if let Some(before) = pending_notify.take() {
+            notify_windows.push((before, out.len(), bytes.len()));
+        }
         ctl.close_to_server();
         settle_drain!();
         if !ctl.server_gone() {
@@ -197,7 +210,7 @@ fn exec(spec: &SrcSpec, bytes: &[u8], sched: &[Ev], out_cap: u16) -> Result<Exec
         }
         out.extend(ctl.take_output());
         drop(client_end);
-        Ok(Exec { out, notify_events, reads: ctl.server_reads(), consumed_at_notify })
+        Ok(Exec { out, notify_events, reads: ctl.server_reads(), consumed_at_notify, notify_windows })
     });
     r.map_err(Fail::new)
 }
@@ -211,12 +224,14 @@ fn sorted(mut v: Vec<(bool, Item)>) -> Vec<(bool, Item)> {
 
 /// Checks the reference output against the model for the prefix of the stream
 /// up to the first malformed PDU. Returns the number of well-formed queries.
-fn check_model(c: &Case, src: &RefSource, reference: &[RawPdu], obs: &mut Obs) -> Result<usize, Fail> {
+fn check_model(c: &Case, src: &RefSource, reference: &[RawPdu], obs: &mut Obs) -> Result<(usize, usize), Fail> {
     let cur = src.current();
     let session = src.session();
     let mut it = reference.iter();
     let mut negotiated: Option<u8> = None;
     let mut well_formed = 0usize;
+    // number of leading PDUs after which the connection is known to be alive and in sync
+    let mut followed = 0usize;
     let mut complete = true;
     let (mut saw_reset, mut saw_data) = (false, false);
     let n = c.pdus.len();
@@ -259,6 +274,7 @@ fn check_model(c: &Case, src: &RefSource, reference: &[RawPdu], obs: &mut Obs) -
             // server consumes is unspecified, so the model stops there.
             if matches!(q, Q::Reset { .. }) {
                 obs.label("model-continues-after-refused-reset");
+                followed = i + 1;
                 continue;
             }
             complete = false; // behaviour afterwards is unspecified
@@ -266,6 +282,7 @@ fn check_model(c: &Case, src: &RefSource, reference: &[RawPdu], obs: &mut Obs) -
         }
         negotiated = Some(version);
         well_formed += 1;
+        followed = i + 1;
         let v = version;
         if !c.src.ready {
             let p = it.next().ok_or_else(|| Fail::new(format!("query #{} got no answer (source not ready)", i)))?;
@@ -339,7 +356,7 @@ fn check_model(c: &Case, src: &RefSource, reference: &[RawPdu], obs: &mut Obs) -
         ensure!(rest.is_empty(), "server sent PDUs no query asked for: {:?}", rest);
         obs.label("model-complete");
     }
-    Ok(well_formed)
+    Ok((well_formed, followed))
 }
 
 //------------ run --------------------------------------------------------------------
@@ -367,7 +384,7 @@ fn run_case(c: &Case, obs: &mut Obs) -> CheckResult {
     let ref_pdus = rtrsim::parse_pdus(&reference.out)
         .map_err(|e| Fail::new(format!("reference output does not parse into PDUs: {} (bytes {:02x?})", e, reference.out)))?;
     ensure!(!ref_pdus.iter().any(|p| p.typ == 0), "Serial Notify without a notification in the reference run");
-    let well_formed = check_model(c, &src, &ref_pdus, obs)?;
+    let (well_formed, followed) = check_model(c, &src, &ref_pdus, obs)?;
     obs.label_if(well_formed >= 2, "multi-query");
     obs.label_if(!c.src.ready, "not-ready");
 
@@ -392,6 +409,7 @@ fn run_case(c: &Case, obs: &mut Obs) -> CheckResult {
     obs.label_if(inside, "split-inside-pdu");
     obs.nontrivial_if(inside && run.notify_events > 0);
 
+    let obs_idle_notify = std::cell::Cell::new(false);
     let verdict = (|| -> CheckResult {
         let pdus = rtrsim::parse_pdus(&run.out).map_err(|e| {
             Fail::new(format!("output does not parse into whole PDUs: {}; output {:02x?}; reference {:02x?}", e, run.out, reference.out))
@@ -416,8 +434,32 @@ fn run_case(c: &Case, obs: &mut Obs) -> CheckResult {
         let refs: Vec<&RawPdu> = ref_pdus.iter().collect();
         ensure!(stripped == refs,
             "responses depend on the schedule: with schedule {:?} the server sent {:?}, with the reference schedule {:?}", c.sched, stripped, refs);
+        // (4) update notifications do appear: a settle point that starts with >= 1 notification
+        // outstanding while the connection is alive, in sync and waiting for a query header
+        // (everything received so far is a run of queries the model follows plus at most 7
+        // octets of the next header) produces at least one Serial Notify
+        for &(before, after, fed) in &run.notify_windows {
+            let idle = std::iter::once(0usize)
+                .chain(bounds.iter().take(followed).map(|b| b.1))
+                .any(|b| b <= fed && fed < b + 8);
+            if !idle {
+                continue;
+            }
+            obs_idle_notify.set(true);
+            let seg = run.out.get(before..after).ok_or_else(|| Fail::new("harness: notify window outside the output"))?;
+            let seg_pdus = rtrsim::parse_pdus(seg)
+                .map_err(|e| Fail::new(format!("output between two settle points is not made of whole PDUs: {}; {:02x?}", e, seg)))?;
+            if !seg_pdus.iter().any(|p| p.typ == 0) {
+                return Err(Fail::sig(
+                    "c08:notify-lost",
+                    format!("notification(s) fired while the connection was waiting for a query ({} stream octets received) \
+                        produced no Serial Notify by the next settle point; output in between: {:?}; schedule {:?}", fed, seg_pdus, c.sched),
+                ));
+            }
+        }
         Ok(())
     })();
+    obs.label_if(obs_idle_notify.get(), "notify-while-idle");
     match verdict {
         Ok(()) => Ok(()),
         Err(f) if partial_header => Err(Fail::sig(
@@ -611,7 +653,7 @@ pub fn property() -> Property {
                 strategy: case_strategy,
                 cases: |t| t.pick(1_500_000, 10_000_000),
                 run: run_case,
-                floors: &[("notify-while-partial-header", 0.20), ("multi-query", 0.25), ("model-data-response", 0.3)],
+                floors: &[("notify-while-partial-header", 0.20), ("multi-query", 0.25), ("model-data-response", 0.3), ("notify-while-idle", 0.15)],
             }
             .boxed(),
             EnumSub { name: "splits", count: count_splits, make: make_split, run: run_case, exhaustive: true }.boxed(),
